@@ -6,7 +6,7 @@
 set -u
 cd "$(dirname "$0")"
 pid="$1"; src="$(readlink -f "$2")"; nosuite="${3:-}"
-slug="$(basename "$src")"
+slug="${SLUG_PREFIX:-}$(basename "$src")"
 dst="/verif/seeded/$pid/$slug"; mkdir -p "$dst"
 cp "$src/patch.diff" "$src/demo.py" "$dst/"; cp "$src/meta.json" "$dst/meta.orig.json" 2>/dev/null
 wt="/tmp/si_${pid}_${slug}_$$"
